@@ -21,7 +21,7 @@ import (
 func c01Script(c *vf.Case, w *sim.World, lostKeyPrefix string) {
 	r := c.Rng
 	nobj := r.Range(2, 6)
-	kinds := []sim.Kind{sim.KConnDialed, sim.KConnAccepted, sim.KAdapter, sim.KFifoR, sim.KFifoW, sim.KUDP, sim.KListener}
+	kinds := []sim.Kind{sim.KConnDialed, sim.KConnAccepted, sim.KAdapter, sim.KFifoR, sim.KFifoW, sim.KUDP, sim.KListener, sim.KRegFile}
 	for i := 0; i < nobj; i++ {
 		k := kinds[r.Intn(len(kinds))]
 		small := r.Bool() && k != sim.KAdapter
@@ -64,6 +64,10 @@ func c01Script(c *vf.Case, w *sim.World, lostKeyPrefix string) {
 			w.StartAccept(o, beh, target, forced)
 		case sim.KUDP:
 			w.StartPacket(o, r.Intn(2), []int{1, 16, 512, 1472}[r.Intn(4)], beh, target, forced)
+		case sim.KRegFile:
+			// a regular file is always ready; started at the dispatch limit its registration is refused by epoll
+			// and the operation completes (once) with that error - and so must the next one
+			w.StartStream(o, r.Intn(2), false, []int{1, 7, 64}[r.Intn(3)], beh, target, forced)
 		case sim.KFifoR:
 			w.StartStream(o, 0, r.Chance(1, 4), []int{1, 7, 64, 512}[r.Intn(4)], beh, target, forced)
 		case sim.KFifoW:
@@ -269,7 +273,7 @@ func init() {
 	register(&vf.Check{
 		ID:        "C01",
 		Technique: "runtime monitor: shadow ledger of every asynchronous operation (recorded before the call, completed inside the wrapped callback) + poll(2) readiness oracle on logical poll cycles + bounded quiescence, over random scripts on real sockets/FIFOs whose peer ends are raw descriptors driven by the loop goroutine",
-		Rule: "cases = scripts of 10-60 steps over 2-6 objects from {dialed TCP conn, accepted TCP conn, AsyncAdapter over net.TCPConn, FIFO read end, FIFO write end, UDP packet conn, listener} sharing one IO: start read/readAll/write/writeAll/accept/readFrom/writeTo (inline or forced to the deferred path by presetting IO.Dispatched), peer writes/drains/half-closes/closes/RSTs/hangs up/connects (1-4 actions before each PollOne so batches hold several ready descriptors), Cancel, Close, handlers that re-issue, cancel/close/cancel-and-re-arm another object or themselves; each script ends by making every remaining operation completable and polling up to 64 cycles; " +
+		Rule: "cases = scripts of 10-60 steps over 2-6 objects from {dialed TCP conn, accepted TCP conn, AsyncAdapter over net.TCPConn, FIFO read end, FIFO write end, regular file, UDP packet conn, listener} sharing one IO: start read/readAll/write/writeAll/accept/readFrom/writeTo (inline or forced to the deferred path by presetting IO.Dispatched), peer writes/drains/half-closes/closes/RSTs/hangs up/connects (1-4 actions before each PollOne so batches hold several ready descriptors), Cancel, Close, handlers that re-issue, cancel/close/cancel-and-re-arm another object or themselves; each script ends by making every remaining operation completable and polling up to 64 cycles; " +
 			"non-trivial = a batch with >= 2 ready objects, a stale batch entry, or a completion through Cancel; distinct = (object kinds, counts of such batches and completion paths)",
 		Assumptions: []string{
 			"one read and one write in flight per object (the API's contract); generators respect it",
